@@ -16,6 +16,8 @@ import (
 	"go/types"
 	"sort"
 	"strings"
+
+	"golang.org/x/tools/go/packages"
 )
 
 // PinnedSig is the recorded signature of one function of the confirmed tree; types are written relative to the package.
@@ -595,4 +597,331 @@ func planFieldRestore(p *Prog, in *inliner, plan *canonPlan) {
 			}
 		}
 	}
+}
+
+// ---- an anchored function moved to another package ---------------------------------------------------------------------
+
+// planAnchorMoved: an anchored package-level function that is gone from its package, while another package of the
+// module has gained exactly one function or method (a name the confirmed tree does not have) with the same operands -
+// for a method: the receiver is one of the anchor's parameters, the parameters are the others in order - the same
+// results, and a name the anchor's name ends with (poolMatchesNodeL2 -> (*config.Pool).MatchesNodeL2). When the moved
+// body reads nothing but its operands, exported fields / methods and exported names of its new package, the anchor is
+// put back where it was: declared in the file of its first caller with the moved body, and the calls inside the old
+// package are directed to it. The moved declaration stays (other packages may use it). Checked by re-type-checking.
+func planAnchorMoved(p *Prog, in *inliner, plan *canonPlan) {
+	if len(pinnedSigs) == 0 {
+		return
+	}
+	for _, want := range pinnedSigs {
+		Anchors.mu.Lock()
+		anch := Anchors.pinned[want.Pkg+"."+want.Name]
+		Anchors.mu.Unlock()
+		if !anch || want.Recv != "" || len(want.RTypes) == 0 {
+			continue
+		}
+		pk := p.ByPath[want.Pkg]
+		if pk == nil || pk.Types.Scope().Lookup(want.Name) != nil {
+			continue
+		}
+		variadic := false
+		for _, pt := range want.PTypes {
+			if strings.HasPrefix(pt, "...") {
+				variadic = true
+			}
+		}
+		if variadic {
+			continue
+		}
+		q := types.RelativeTo(pk.Types)
+		type cand struct {
+			f     *Fn
+			order []int // wanted parameter i is the candidate's operand order[i] (0 = receiver when there is one)
+		}
+		var cands []cand
+		for _, f := range p.fnList {
+			if f.Pkg == pk || f.Decl == nil || f.Obj == nil || f.Decl.Type.TypeParams != nil || !ast.IsExported(f.Decl.Name.Name) ||
+				strings.HasSuffix(p.Fset.Position(f.Decl.Pos()).Filename, "_test.go") || !strings.HasPrefix(f.Pkg.PkgPath, Module) {
+				continue
+			}
+			if pinnedNames[f.Pkg.PkgPath+"."+f.Decl.Name.Name] {
+				continue
+			}
+			if !strings.HasSuffix(strings.ToLower(want.Name), strings.ToLower(f.Decl.Name.Name)) || len(f.Decl.Name.Name) < 6 {
+				continue
+			}
+			sig := f.Obj.Type().(*types.Signature)
+			if sig.Variadic() || sig.Results().Len() != len(want.RTypes) {
+				continue
+			}
+			okR := true
+			for i := 0; i < sig.Results().Len(); i++ {
+				if types.TypeString(sig.Results().At(i).Type(), q) != want.RTypes[i] {
+					okR = false
+				}
+			}
+			if !okR {
+				continue
+			}
+			var ops []string
+			if r := sig.Recv(); r != nil {
+				ops = append(ops, types.TypeString(r.Type(), q))
+			}
+			for i := 0; i < sig.Params().Len(); i++ {
+				ops = append(ops, types.TypeString(sig.Params().At(i).Type(), q))
+			}
+			if len(ops) != len(want.PTypes) {
+				continue
+			}
+			// the receiver takes the place of the first wanted parameter of its type; the others keep their order
+			order := make([]int, len(want.PTypes))
+			used := make([]bool, len(ops))
+			okO := true
+			start := 0
+			if sig.Recv() != nil {
+				start = 1
+				ri := -1
+				for i, t := range want.PTypes {
+					if t == ops[0] {
+						ri = i
+						break
+					}
+				}
+				if ri < 0 {
+					continue
+				}
+				order[ri], used[0] = 0, true
+				k := start
+				for i := range want.PTypes {
+					if i == ri {
+						continue
+					}
+					if k >= len(ops) || ops[k] != want.PTypes[i] {
+						okO = false
+						break
+					}
+					order[i], used[k] = k, true
+					k++
+				}
+			} else {
+				for i := range want.PTypes {
+					if ops[i] != want.PTypes[i] {
+						okO = false
+					}
+					order[i] = i
+				}
+			}
+			if okO {
+				cands = append(cands, cand{f, order})
+			}
+		}
+		if len(cands) != 1 {
+			continue
+		}
+		c := cands[0]
+		if in.moveBack(pk, c.f, c.order, want) {
+			plan.expanded = append(plan.expanded, "anchor moved to "+c.f.Name()+" put back as "+want.Name)
+		}
+	}
+}
+
+func (in *inliner) moveBack(pk *packages.Package, c *Fn, order []int, want PinnedSig) bool {
+	p := in.p
+	cinfo := c.Pkg.TypesInfo
+	sig := c.Obj.Type().(*types.Signature)
+	// the calls inside the old package: all direct, in non-test files
+	var calls []*ast.CallExpr
+	okUses := true
+	var firstFile *ast.File
+	for _, file := range pk.Syntax {
+		if strings.HasSuffix(p.Fset.Position(file.Pos()).Filename, "_test.go") {
+			continue
+		}
+		ast.Inspect(file, func(n ast.Node) bool {
+			id, ok := n.(*ast.Ident)
+			if !ok || pk.TypesInfo.Uses[id] != types.Object(c.Obj) {
+				return true
+			}
+			sel, isSel := p.parents[id].(*ast.SelectorExpr)
+			if !isSel || sel.Sel != id {
+				okUses = false
+				return true
+			}
+			call, isCall := p.parents[sel].(*ast.CallExpr)
+			if !isCall || call.Fun != ast.Expr(sel) || call.Ellipsis.IsValid() {
+				okUses = false
+				return true
+			}
+			calls = append(calls, call)
+			if firstFile == nil {
+				firstFile = file
+			}
+			return true
+		})
+	}
+	if !okUses || len(calls) == 0 || firstFile == nil {
+		return false
+	}
+	// import names of the target file
+	impName := map[string]string{}
+	for _, imp := range firstFile.Imports {
+		path := strings.Trim(imp.Path.Value, "\"")
+		name := ""
+		if imp.Name != nil {
+			name = imp.Name.Name
+		} else if ip := p.AllTypes[path]; ip != nil {
+			name = ip.Name()
+		} else {
+			name = path[strings.LastIndexByte(path, '/')+1:]
+		}
+		impName[path] = name
+	}
+	qual := func(tp *types.Package) string {
+		if tp == pk.Types {
+			return ""
+		}
+		if n, ok := impName[tp.Path()]; ok && n != "_" && n != "." {
+			return n
+		}
+		return "\x00"
+	}
+	// the candidate's operand names (receiver first)
+	var opNames []*ast.Ident
+	if c.Decl.Recv != nil && len(c.Decl.Recv.List) == 1 {
+		if len(c.Decl.Recv.List[0].Names) != 1 {
+			return false
+		}
+		opNames = append(opNames, c.Decl.Recv.List[0].Names[0])
+	}
+	for _, fld := range c.Decl.Type.Params.List {
+		if len(fld.Names) == 0 {
+			return false
+		}
+		opNames = append(opNames, fld.Names...)
+	}
+	if len(opNames) != len(order) {
+		return false
+	}
+	// parameter list of the restored function, named as the moved one names them
+	var params []string
+	for i := range want.PTypes {
+		var t types.Type
+		k := order[i]
+		if sig.Recv() != nil {
+			if k == 0 {
+				t = sig.Recv().Type()
+			} else {
+				t = sig.Params().At(k - 1).Type()
+			}
+		} else {
+			t = sig.Params().At(k).Type()
+		}
+		ts := types.TypeString(t, qual)
+		if strings.Contains(ts, "\x00") {
+			return false
+		}
+		params = append(params, opNames[k].Name+" "+ts)
+	}
+	var results []string
+	for i := 0; i < sig.Results().Len(); i++ {
+		ts := types.TypeString(sig.Results().At(i).Type(), qual)
+		if strings.Contains(ts, "\x00") {
+			return false
+		}
+		results = append(results, ts)
+	}
+	// the body: only operands, locals, universe, exported members and exported names of its package / imported packages
+	okBody := true
+	var eds []posEdit
+	scope := pk.Types.Scope()
+	ast.Inspect(c.Decl.Body, func(n ast.Node) bool {
+		switch x := n.(type) {
+		case *ast.FuncLit:
+			okBody = false
+		case *ast.Ident:
+			o := cinfo.Uses[x]
+			if o == nil {
+				return true
+			}
+			if sel, isSel := p.parents[x].(*ast.SelectorExpr); isSel && sel.Sel == x {
+				if !ast.IsExported(x.Name) {
+					okBody = false
+				}
+				return true
+			}
+			switch ob := o.(type) {
+			case *types.PkgName:
+				if n, ok := impName[ob.Imported().Path()]; !ok || n != x.Name {
+					okBody = false
+				}
+			case *types.Builtin, *types.Nil:
+			default:
+				if o.Pkg() == nil {
+					return true // universe
+				}
+				if o.Pos() >= c.Decl.Pos() && o.Pos() <= c.Decl.End() {
+					// a local or an operand: its name must not be taken by a package-level name of the old package used here
+					return true
+				}
+				if o.Parent() == o.Pkg().Scope() {
+					qn := qual(o.Pkg())
+					if !ast.IsExported(x.Name) || qn == "\x00" || qn == "" {
+						okBody = false
+						return true
+					}
+					eds = append(eds, posEdit{x.Pos(), x.End(), qn + "." + x.Name})
+					return true
+				}
+				okBody = false
+			}
+		}
+		return okBody
+	})
+	if !okBody {
+		return false
+	}
+	// local names of the body must not capture package-level names of the old package that the body does not use: the
+	// body uses none of them (checked above), so nothing to rename
+	_ = scope
+	body := in.renderEdits(c.Decl.Body.Pos(), c.Decl.Body.End(), eds)
+	res := ""
+	switch len(results) {
+	case 0:
+	case 1:
+		res = " " + results[0]
+	default:
+		res = " (" + strings.Join(results, ", ") + ")"
+	}
+	decl := "\n\nfunc " + want.Name + "(" + strings.Join(params, ", ") + ")" + res + " " + body + "\n"
+	fe := in.file(firstFile.Pos())
+	fe.edits = append(fe.edits, textEdit{start: in.off(firstFile.End()), end: in.off(firstFile.End()), text: decl})
+	for _, call := range calls {
+		sel := call.Fun.(*ast.SelectorExpr)
+		ops := make([]string, len(order))
+		k := 0
+		if sig.Recv() != nil {
+			ops[0] = in.text(sel.X.Pos(), sel.X.End())
+			if _, isPtrRecv := sig.Recv().Type().(*types.Pointer); isPtrRecv {
+				if t := pk.TypesInfo.TypeOf(sel.X); t != nil {
+					if _, isPtr := t.(*types.Pointer); !isPtr {
+						ops[0] = "&" + ops[0]
+					}
+				}
+			}
+			k = 1
+		}
+		for _, a := range call.Args {
+			if k >= len(ops) {
+				return false
+			}
+			ops[k] = in.text(a.Pos(), a.End())
+			k++
+		}
+		args := make([]string, len(order))
+		for i := range order {
+			args[i] = ops[order[i]]
+		}
+		ce := in.file(call.Pos())
+		ce.edits = append(ce.edits, textEdit{start: in.off(call.Pos()), end: in.off(call.End()), text: want.Name + "(" + strings.Join(args, ", ") + ")"})
+	}
+	return true
 }
